@@ -1098,7 +1098,7 @@ pub fn run(opts: &Opts) {
     for_backends!(opts, backend, opts, &mut rep);
     rep.set(
         "rule",
-        json!("hostile strings for every FromStr/Deserialize instantiation of every backend: (i) header variants x every decoded body length 0..700 x {random,00,ff,stretched-valid}; (ii) mutated valid serialisations (vectors + fresh): bit flips, byte sets, truncation, insertion, deletion, zero runs, cross-kind splices, decoded-level edits, multibyte UTF-8; (iii) degenerate key encodings (P-384 infinity/x>=p/off-curve/uncompressed/hybrid, boundary scalars, Ed25519 small-order/non-canonical/off-curve, RSA wrong sizes/exponents/DER damage/PEM); everything that parses is displayed, identified, cloned, used to seal/unseal/wrap/unwrap/seal-to. non-trivial = the input reached the type's base64 decoder (header matched) or was accepted; distinct = distinct (backend, target, string)"),
+        json!("hostile strings for every FromStr/Deserialize instantiation of every backend: (i) header variants x every decoded body length 0..700 x {random,00,ff,stretched-valid}; (ii-c) tokens validly sealed under the fixture keys whose claims carry extreme / malformed exp-nbf-iat timestamps or wrong types, unsealed through every built-in validator (Time at a realistic now, leeways 1 s..1 y, HasExpiry/ForSubject/FromIssuer/ForAudience chains, Vec); (ii) mutated valid serialisations (vectors + fresh): bit flips, byte sets, truncation, insertion, deletion, zero runs, cross-kind splices, decoded-level edits, multibyte UTF-8; (iii) degenerate key encodings (P-384 infinity/x>=p/off-curve/uncompressed/hybrid, boundary scalars, Ed25519 small-order/non-canonical/off-curve, RSA wrong sizes/exponents/DER damage/PEM); everything that parses is displayed, identified, cloned, used to seal/unseal/wrap/unwrap/seal-to. non-trivial = the input reached the type's base64 decoder (header matched) or was accepted; distinct = distinct (backend, target, string)"),
     );
     rep.finish(opts);
 }
